@@ -655,3 +655,4 @@ theorem framesN_shape (max : Nat) : ∀ (n : Nat) (bytes : List Nat),
           exact ⟨s :: ss, e, by simp [h1], h2⟩
 
 end Irc.C13C
+
